@@ -883,6 +883,15 @@ impl<'cmd> Parser<'cmd> {
     ) -> ClapResult<ParseResult> {
         debug!("Parser::parse_short_arg: short_arg={short_arg:?}");
 
+        // Only applies to the group of short flags the flag subcommand was found in, even if that
+        // group ends up being treated as a value
+        let skip = self.flag_subcmd_skip;
+        self.flag_subcmd_skip = 0;
+        if skip == 0 {
+            // Not revisiting the group a flag subcommand was found in
+            self.flag_subcmd_at = None;
+        }
+
         #[allow(clippy::blocks_in_conditions)]
         if matches!(parse_state, ParseState::Opt(opt) | ParseState::Pos(opt)
                 if self.cmd[opt].is_allow_hyphen_values_set() || (self.cmd[opt].is_allow_negative_numbers_set() && short_arg.is_negative_number()))
@@ -915,8 +924,6 @@ impl<'cmd> Parser<'cmd> {
 
         let mut ret = ParseResult::NoArg;
 
-        let skip = self.flag_subcmd_skip;
-        self.flag_subcmd_skip = 0;
         let res = short_arg.advance_by(skip);
         debug_assert_eq!(
             res,
